@@ -53,7 +53,9 @@ func c18(w *core.World, r *core.Report) {
 				}
 			}
 		}
-		okTag = slotV != nil && tagArg != nil && slotV == tagArg
+		// ... the same value, or the same field of the builder's state record read twice with nothing in between
+		// that could change it
+		okTag = slotV != nil && tagArg != nil && sameReadUnchanged(slotV, tagArg)
 		r.Check(okTag, "buildBisyncReplayUnit/slot-tag", b.Pos(), "the tag that places the control keys must be derived from the same slot value that the unit records")
 	}
 
@@ -80,12 +82,37 @@ func c18(w *core.World, r *core.Report) {
 	r.Rule("R18.5", "a unit is emitted only on the builder's success edge", 1)
 	if f := fn(w, r, "(*syncer.RedisOutput).parseAofReplayUnits"); f != nil {
 		var emit *ssa.Function
-		for _, c := range core.DeepFuncs(f)[1:] {
+		emitArg := 0 // which of the emitter's parameters is the unit it sends
+		// the emitter: a closure of the parser, or a function the parser (or one of its closures) calls, that
+		// sends one of its parameters, a unit, on a channel
+		cands := append([]*ssa.Function(nil), core.DeepFuncs(f)[1:]...)
+		for _, g := range core.DeepFuncs(f) {
+			for _, s := range core.Sites(g, false) {
+				if s.Callee != nil && s.Callee.Parent() == nil && len(s.Callee.Blocks) > 0 && !s.Common().IsInvoke() {
+					cands = append(cands, s.Callee)
+				}
+			}
+		}
+		for _, c := range cands {
 			for _, in := range core.OwnInstrs(c) {
-				if sel, ok := in.(*ssa.Select); ok {
-					for _, st := range sel.States {
-						if st.Send != nil && strings.HasSuffix(st.Send.Type().String(), "bisyncReplayUnit") {
-							emit = c
+				var sent []ssa.Value
+				switch x := in.(type) {
+				case *ssa.Select:
+					for _, st := range x.States {
+						if st.Send != nil {
+							sent = append(sent, st.Send)
+						}
+					}
+				case *ssa.Send:
+					sent = append(sent, x.X)
+				}
+				for _, v := range sent {
+					if !strings.HasSuffix(v.Type().String(), "bisyncReplayUnit") {
+						continue
+					}
+					for k, par := range c.Params {
+						if ssa.Value(par) == v {
+							emit, emitArg = c, k
 						}
 					}
 				}
@@ -108,7 +135,7 @@ func c18(w *core.World, r *core.Report) {
 					}
 				}
 				for _, bs := range builds {
-					if core.Dominates(bs.Instr, s.Instr) && core.OnSuccessOf(s.Instr.Block(), bs.Value()) && core.Unwrap(s.Args()[0]) == extractOf(bs.Value(), 0) {
+					if core.Dominates(bs.Instr, s.Instr) && core.OnSuccessOf(s.Instr.Block(), bs.Value()) && emitArg < len(s.Common().Args) && core.Unwrap(s.Common().Args[emitArg]) == extractOf(bs.Value(), 0) {
 						okB = true
 					}
 				}
@@ -552,6 +579,40 @@ func ruleRefusalReasons(w *core.World, r *core.Report, b *ssa.Function) {
 			return
 		}
 		last := p.Conds[len(p.Conds)-1]
+		// the decision may have been made by a helper the path stepped into; the reason is then what decided there:
+		// (a) `if err := helper(...); err != nil { return nil, err }` where the helper built the error on the spot:
+		//     the test decides nothing, the reason is the fact before it (the helper's last decision);
+		// (b) `if !state.predicate()`: a constant answer was decided by the predicate's last branch, any other
+		//     answer is the value the predicate returned, judged as if it had been tested in place.
+		for k := len(p.Conds) - 1; k >= 0; {
+			last = p.Conds[k]
+			if c, isCmp := core.FactCmp(last); isCmp && c.Op == token.NEQ && core.IsNilConst(core.Unwrap(p.Resolve(c.Y))) && madeErrorOutside(p.Resolve(c.X), b) {
+				if k == 0 {
+					bad, badPos = "unconditional refusal (by a helper)", ret.Pos()
+					return
+				}
+				k--
+				continue
+			}
+			if call, isCall := last.Cond.(*ssa.Call); isCall && last.Res != nil && last.Res != ssa.Value(call) {
+				if g := call.Call.StaticCallee(); g != nil {
+					if _, isConst := core.ConstBool(last.Res); isConst {
+						j := k - 1
+						for j >= 0 && (p.Conds[j].If == nil || p.Conds[j].If.Parent() != g) {
+							j--
+						}
+						if j < 0 {
+							bad, badPos = "the builder refuses a unit on the constant answer of a helper", ret.Pos()
+							return
+						}
+						k = j
+						continue
+					}
+					last = core.Fact{Cond: last.Res, Val: last.Val, Res: last.Res}
+				}
+			}
+			break
+		}
 		c, isCmp := core.FactCmp(last)
 		okReason := false
 		if isCmp {
@@ -573,6 +634,12 @@ func ruleRefusalReasons(w *core.World, r *core.Report, b *ssa.Function) {
 			// "no slot recorded yet": a boolean that starts false and is only ever set to true
 			if ph, isPhi := v.(*ssa.Phi); isPhi && !last.Val && isSeenFlag(ph) {
 				okReason = true
+			}
+			// ... the same flag kept in a field of the builder's state record
+			if ld, isLd := v.(*ssa.UnOp); isLd && ld.Op == token.MUL && !last.Val {
+				if fa, isFa := ld.X.(*ssa.FieldAddr); isFa && latchField(w, fa) {
+					okReason = true
+				}
 			}
 		}
 		if !okReason && os.Getenv("GUNYU_DEBUG") != "" {
